@@ -101,6 +101,10 @@ func TestMain(m *testing.M) {
 	flag.Parse()
 	code := m.Run()
 	out := os.Getenv("VERIF_EVID_OUT")
+	flushFuzz(os.Getenv("VERIF_FUZZ_PROP"), out)
+	if fw := flag.Lookup("test.fuzzworker"); fw != nil && fw.Value.String() == "true" && out != "" {
+		out = fmt.Sprintf("%s.fuzzrec-%d", out, os.Getpid()) // fuzz workers are separate processes: one fragment each
+	}
 	recMu.Lock()
 	for _, r := range recs {
 		if out != "" {
